@@ -58,7 +58,12 @@ fn filter_map(
     let (cel, mut bindings) = helpers::setup_context(ctx);
     let mut filtered_list = Vec::new();
 
-    for key in map.into_keys() {
+    // a hash map has no stable iteration order: visit the keys in sorted order so that
+    // equal maps always give equal results
+    let mut keys: Vec<String> = map.into_keys().collect();
+    keys.sort();
+
+    for key in keys.into_iter() {
         let value: CelValue = key.into();
         bindings.bind_param(ident_name, value.clone());
         let interp = Interpreter::new(&cel, &bindings);
